@@ -431,6 +431,7 @@ class Consumer(object):
             raise RestopError("Stop called on non-running consumer")
 
         self._stopping = True
+        start_d = self._start_d
         # Keep track of state for debugging
         self._state = "stopping"
         # Are we waiting for a request to come back?
@@ -458,8 +459,14 @@ class Consumer(object):
             while self._commit_ds:
                 d = self._commit_ds.pop()
                 d.cancel()
+        if self._start_d is not start_d:
+            # One of the callbacks just fired called stop() itself: that call has
+            # stopped us (and the application may have started us again since).
+            return self._last_processed_offset
         if self._commit_req:
             self._commit_req.cancel()
+        if self._start_d is not start_d:
+            return self._last_processed_offset
         # Are we waiting to retry a commit?
         if self._commit_call:
             if self._commit_call.active():
